@@ -152,6 +152,10 @@ type runner struct {
 	release  chan struct{}
 	fill     int32
 	stopped  int32 // set when DISCONNECTED was seen: user senders stop
+	useq     int32 // ids of user lines, unique over the whole scenario
+	umu      sync.Mutex
+	returned []int        // ids of user lines whose Raw call has returned
+	stale    map[int]bool // ids whose call had returned when a DISCONNECTED handler started: accepted by an earlier connection
 	ctx      context.Context
 	cancel   context.CancelFunc
 	cycle    int
@@ -248,6 +252,15 @@ func Run(sc Scenario, seed int64) *Result {
 	c.HandleFunc(client.DISCONNECTED, func(c *client.Conn, l *client.Line) {
 		up := c.Connected()
 		atomic.StoreInt32(&r.stopped, 1)
+		r.umu.Lock()
+		if r.stale == nil {
+			r.stale = map[int]bool{}
+		}
+		for _, id := range r.returned {
+			r.stale[id] = true
+		}
+		r.returned = r.returned[:0]
+		r.umu.Unlock()
 		n := atomic.AddInt32(&r.disc, 1)
 		if up {
 			r.problem("C06", "connected-true-in-DISCONNECTED", "Connected() was true when the DISCONNECTED handler started")
@@ -331,6 +344,18 @@ func (r *runner) checkFresh() {
 		return
 	}
 	l, _ := srv.Lines()
+	// a line whose Raw call had returned before the previous connection's DISCONNECTED handler started was
+	// accepted by that connection: it must not come out of the new one. (A user call made after that may
+	// legitimately land anywhere on the new connection, even ahead of NICK/USER.)
+	r.umu.Lock()
+	for _, x := range l {
+		var id int
+		if n, _ := fmt.Sscanf(x, "PRIVMSG #x :user line %d", &id); n == 1 && r.stale[id] {
+			r.problem("C07", "fresh-connection-not-fresh", fmt.Sprintf("the new connection carries %q, a line accepted by the previous connection before its DISCONNECTED was dispatched", x))
+			break
+		}
+	}
+	r.umu.Unlock()
 	if n := count(l, "NICK "); n != 1 {
 		r.problem("C18", "registration-burst", fmt.Sprintf("NICK sent %d times on the new socket: %q", n, l))
 	}
@@ -435,7 +460,11 @@ func (r *runner) oneGeneration(rng *rand.Rand) bool {
 		go func() {
 			defer userWG.Done()
 			for i := 0; i < sc.Out && atomic.LoadInt32(&r.stopped) == 0; i++ {
-				s.C.Raw(fmt.Sprintf("PRIVMSG #x :user line %d", i))
+				id := int(atomic.AddInt32(&r.useq, 1))
+				s.C.Raw(fmt.Sprintf("PRIVMSG #x :user line %d", id))
+				r.umu.Lock()
+				r.returned = append(r.returned, id)
+				r.umu.Unlock()
 			}
 		}()
 	}
@@ -660,6 +689,12 @@ func Families(tier string, rng *rand.Rand) []Scenario {
 	add(Scenario{Reconnect: "other", Cycles: storm / 3, Storm: true, Causes: []string{"cancel"}, In: 3})
 	add(Scenario{Reconnect: "other", Cycles: storm, Storm: true, Causes: []string{"close3", "eof"}})
 	add(Scenario{Reconnect: "other", Cycles: storm / 2, Storm: true, Causes: []string{"close2", "writeerr", "cancel"}, Ping: true})
+	// user goroutines in the middle of a burst when the connection ends, then a reconnect: nothing queued
+	// on the old connection may show up on the new one
+	for _, rc := range []string{"handler", "other"} {
+		add(Scenario{Reconnect: rc, Cycles: 2, Causes: []string{"eof"}, Out: 300, OutBy: "user"})
+		add(Scenario{Reconnect: rc, Cycles: 2, Causes: []string{"close"}, Out: 3 * cap, OutBy: "user", In: 5})
+	}
 	// flood control on: lines are being rate-limited while the disconnect happens
 	add(Scenario{Flood: true, Out: 12, OutBy: "user", Causes: []string{"close"}})
 	if tier == "thorough" {
@@ -750,11 +785,14 @@ func RunLife(args []string) int {
 		}
 		sb, _ := json.Marshal(sc)
 		fmt.Println("BEGIN " + string(sb))
-		if tr != nil {
+		// ConnTrace.tla follows user senders within one connection; a user goroutine that keeps
+		// sending across a reconnect is checked by the scenario's own oracle only
+		traced := tr != nil && !(sc.OutBy == "user" && sc.Reconnect != "none" && sc.Reconnect != "")
+		if traced {
 			tr.Reset(qcap, sc.Ping)
 		}
 		res := Run(sc, *seed*7919+int64(sc.ID))
-		if tr != nil {
+		if traced {
 			waitNoInternal(500 * time.Millisecond)
 			tr.Pause()
 		}
